@@ -277,9 +277,64 @@ def handle_totals(c):
             'kind': 'totals ' + c['mode']}
 
 
+def handle_dup(c):
+    """scipy COO partial whose sparsity lists some (row, col) positions more than once (scipy sums duplicates)"""
+    FD = np.array(c['fd'], dtype=float) / 2.0
+    AN = np.array(c['an'], dtype=float) / 2.0
+    nr, nc = FD.shape
+    r = np.array([p[0] for p in c['pat']], dtype=int)
+    k = np.array([p[1] for p in c['pat']], dtype=int)
+    # split every analytic value over the duplicates of its position: the last occurrence gets the rest
+    data = np.zeros(r.size)
+    last = {}
+    for i, pos in enumerate(zip(r.tolist(), k.tolist())):
+        last[pos] = i
+    for i, pos in enumerate(zip(r.tolist(), k.tolist())):
+        data[i] = 1.0 if last[pos] != i else 0.0
+    for pos, i in last.items():
+        data[i] = AN[pos] - (sum(1 for q2 in zip(r.tolist(), k.tolist()) if q2 == pos) - 1)
+
+    class Comp(om.ExplicitComponent):
+        def setup(self):
+            self.add_input('x', np.ones(nc))
+            self.add_output('y', np.zeros(nr))
+            self.declare_partials('y', 'x', val=sp.coo_matrix((np.ones(r.size), (r, k)), shape=(nr, nc)))
+
+        def compute(self, i, o):
+            o['y'] = FD @ i['x']
+
+        def compute_partials(self, i, p):
+            p['y', 'x'] = sp.coo_matrix((data, (r, k)), shape=(nr, nc))
+    p = om.Problem()
+    p.model.add_subsystem('c', Comp(), promotes=['*'])
+    p.setup(force_alloc_complex=(c['method'] == 'cs'))
+    p.set_val('x', np.array(c['x'], dtype=float))
+    p.run_model()
+    atol = rtol = 2.0 ** -c['tolexp']
+    kw = dict(out_stream=None, method=c['method'], step=2.0 ** -c['stepexps'][0], abs_err_tol=atol, rel_err_tol=rtol)
+    if c['method'] == 'fd':
+        kw['form'] = c['form']
+    d = p.check_partials(**kw)['c']['y', 'x']
+    inpat = np.zeros((nr, nc), dtype=bool)
+    inpat[r, k] = True
+    bad = []
+    Jfwd, Jfd = np.asarray(d['J_fwd']), np.asarray(d['J_fd'])
+    if not np.array_equal(Jfwd, np.where(inpat, AN, 0.0)):
+        bad.append('J_fwd %s is not the analytic jacobian of the component %s' % (
+            Jfwd.tolist(), np.where(inpat, AN, 0.0).tolist()))
+    if not np.array_equal(Jfd, np.where(inpat, FD, 0.0)):
+        bad.append('J_fd %s is not the approximated jacobian %s on the declared pattern (coo pattern with '
+                   'duplicate entries %s)' % (Jfd.tolist(), np.where(inpat, FD, 0.0).tolist(), c['pat']))
+    errors_oracle(Jfwd, np.where(inpat, FD, 0.0), atol, rtol, d, 'forward', bad)
+    return {'res': qmat(Jfd), 'ok': not bad, 'msg': '; '.join(bad)[:1500], 'sig': 'coo-duplicate-entries-J_fd',
+            'kind': 'coo duplicates ' + c['method']}
+
+
 def handle(c):
     if c['kind'] == 'partials':
         return handle_partials(c)
+    if c['kind'] == 'dup':
+        return handle_dup(c)
     return handle_totals(c)
 
 
